@@ -13,7 +13,13 @@ Oracles
       model (2-3 function sets with their own functions handed over by _forward_branch(set, iteration)
       + forward, or through a real PIDeepONetCondition, interleaved with fix_branch_input / tensor
       forwards): after every call the output is the contraction for the functions of the set named
-      in that call (reference = harness contraction);
+      in that call (reference = harness contraction); the function-set OBJECTS of the history are
+      re-used the way users do: shared with a second DeepONet whose branch net discretises at other
+      points (same or other number of points, or the same sampler), handed over as
+      model(points, function_set), sums of two function sets, and evaluated by the user at points
+      of his own (FunctionSet.create_function_batch, whose result is compared with the functions
+      at exactly these points) before / between the model calls; every call on either model must
+      give the contraction for the named functions discretised at THAT model's branch points;
   (b) differential (shared trunk input = TrunkLinear fast path): a twin DeepONet with
       trunk_input_copied=False (torch.nn.Linear) and copied weights must give the same output,
       first and second derivatives w.r.t. the trunk inputs (torch.autograd.grad(create_graph=True)
@@ -53,13 +59,22 @@ RULE = ("Hypothesis draws a DeepONet: trunk FCTrunkNet (1-3 hidden layers of 1-6
         "repeated along axis 0 + track_coord_gradients, as PIDeepONetCondition does), 'rank2' "
         "((N,d) Points as DeepONetDataLoader/examples pass), 'single' ((1,N,d)) - all three with "
         "trunk_input_copied=True - or 'perfn' ((B,N,d) different per function, "
-        "trunk_input_copied=False). Every case also carries (i) a history of 2-6 training calls "
+        "trunk_input_copied=False). Every case also carries (i) a history of 2-7 calls "
         "on the one model over 2-3 function sets (length = the base batch or 1-4; perfn: always the "
         "base length): fb(set, iteration in {None,0,1,2}, via _forward_branch+forward or "
         "PIDeepONetCondition [repeat form]), fix (fix_branch_input with other functions), tensor "
-        "(forward with the set's functions as tensor) - calls where the clean caching rule is "
+        "(forward with the set's functions as tensor), fwd (model(points, set)), eval (the user calls "
+        "set.create_function_batch at own points: as many as the discretisation has (1/2), one "
+        "more/less, the discretisation points of either model); every op but eval carries net in "
+        "{0 (3/5), 1}: net 1 is a second DeepONet of the same architecture with own weights whose "
+        "branch discretises at other points (same number 3/5, one more 1/5, or the shared sampler "
+        "1/5) and which is handed the SAME function-set objects; a third of the sets of length >= 2 "
+        "are sums of two CustomFunctionSets; in every case a fresh function set that the user "
+        "evaluated once at n_disc other points (a third of the cases also: n_disc+1 points) is "
+        "handed to the model and compared with the tensor supply - calls where the clean caching rule is "
         "known to reuse another set's features (set.current_iteration_num == iteration but the "
-        "model was handed something else since; D-C14-1) are dropped by the interpreter; (ii) a "
+        "called model was handed something else since or never this set; D-C14-1) are dropped by "
+        "the interpreter; (ii) a "
         "second differential run with asym_track in {False (2/3), True} and 0-2 frozen parameter "
         "groups (skipped when it would equal the first run or nothing requires grad). Non-trivial: (output dim >= 2 or (>= 2 functions and >= 2 "
         "locations)) and the second derivatives were compared (differentiation order 2 reached); "
@@ -84,6 +99,15 @@ ASSUMPTIONS = [
     "the contraction for its own set, also when two sets are used within one iteration number",
     "function-set parameters come from a DataSampler (deterministic), so re-sampling a set gives "
     "the same functions and the expected output of a set does not depend on the iteration",
+    "a FunctionSet object may be used by several consumers (two DeepONets / conditions, the user "
+    "evaluating it at points of his own through the public create_function_batch after "
+    "sample_params): create_function_batch(points) is documented to return the functions at the "
+    "points it is given, so every consumer must get the functions at ITS points whatever the set "
+    "was evaluated at before; current_iteration_num is an attribute of the set shared by all "
+    "models, the D-C14-1 rule is therefore applied per called model (dropped when the set's "
+    "iteration number matches but the called model does not hold this set's features)",
+    "the feature layout (block / interleaved) found for the first model is also the one of the "
+    "second DeepONet (same classes, same library)",
     "frozen parameters / untracked locations: only gradients w.r.t. tensors that require grad are "
     "compared (None from autograd counts as zero); torch.nn.Linear is the reference for which "
     "gradients exist",
@@ -99,6 +123,8 @@ BRANCH_ACTS = SMOOTH + ["relu"]
 FORMS = ["repeat", "rank2", "single", "perfn"]
 FROZEN = ["trunk-first-weight", "trunk-first-weight", "trunk-first-bias", "trunk-weights",
           "trunk-biases", "trunk-last", "trunk-all", "norm", "norm", "branch"]
+EVAL_PTS = ["same-count", "same-count", "same-count", "other-count", "disc", "disc-net2"]
+NET2_DISC = ["same-count", "same-count", "same-count", "other-count", "shared-sampler"]
 IN_VARS = [[["x", 1]], [["x", 2]], [["x", 1], ["t", 1]], [["x", 2], ["t", 1]], [["t", 1], ["x", 2]],
            [["x", 3]]]
 
@@ -168,7 +194,11 @@ def _case(draw, tier):
     # used on the ONE model through DeepONet._forward_branch / PIDeepONetCondition
     n_sets = draw(st.integers(2, 3))
     spec["fb_lens"] = [draw(st.sampled_from([0, 0, 0, 0, 0, 1, 2, 3, 4])) for _ in range(n_sets)]
-    spec["fb_ops"] = draw(st.lists(_fb_op(), min_size=2, max_size=6))
+    spec["fb_ops"] = draw(st.lists(_fb_op(), min_size=2, max_size=7))
+    # a function set may be a sum of two function sets; the second DeepONet (ops with net=1)
+    # discretises the functions at other points (mostly the same number of them)
+    spec["fb_sum"] = [draw(st.sampled_from([False, False, True])) for _ in range(n_sets)]
+    spec["net2_disc"] = draw(st.sampled_from(NET2_DISC))
     # second differential run with asymmetric requires_grad flags
     spec["asym_track"] = draw(st.sampled_from([False, False, True]))
     spec["asym_frozen"] = draw(st.lists(st.sampled_from(FROZEN), max_size=2, unique=True))
@@ -177,14 +207,20 @@ def _case(draw, tier):
 
 @st.composite
 def _fb_op(draw):
-    kind = draw(st.sampled_from(["fb", "fb", "fb", "fb", "fix", "tensor"]))
+    kind = draw(st.sampled_from(["fb", "fb", "fb", "fb", "fb", "fix", "tensor", "eval", "eval", "fwd"]))
+    net = draw(st.sampled_from([0, 0, 0, 1, 1]))
     if kind == "fb":
         return {"op": "fb", "set": draw(st.integers(0, 2)),
                 "it": draw(st.sampled_from([None, 0, 0, 1, 1, 2])),
-                "via": draw(st.sampled_from(["direct", "cond"]))}
+                "via": draw(st.sampled_from(["direct", "cond"])), "net": net}
     if kind == "tensor":
-        return {"op": "tensor", "set": draw(st.integers(0, 2))}
-    return {"op": "fix"}
+        return {"op": "tensor", "set": draw(st.integers(0, 2)), "net": net}
+    if kind == "fwd":       # model(points, function_set)
+        return {"op": "fwd", "set": draw(st.integers(0, 2)), "net": net}
+    if kind == "eval":      # the user evaluates the function set somewhere (plot / own loss term)
+        return {"op": "eval", "set": draw(st.integers(0, 2)),
+                "pts": draw(st.sampled_from(EVAL_PTS))}
+    return {"op": "fix", "net": net}
 
 
 def strategy(tier):
@@ -244,6 +280,43 @@ def extra_cases(tier, seed):
                        fb_ops=[{"op": "fb", "set": s_, "it": it, "via": ["cond", "direct"][i]}
                                for it in its for s_ in ((0, 1) if it != 1 else (1, 0))][: 6 if i == 0 else 2],
                        asym_track=bool(i), asym_frozen=["trunk-first-weight"] if i else [])
+    # ONE function-set object used twice at different points: shared by two DeepONets whose branch
+    # nets discretise at different points (equal / different number of them), evaluated by the user
+    # at his own points before / between the training calls, sums of function sets
+    reuse = [
+        # two DeepONets (two conditions) share the function sets, every iteration
+        [{"op": "fb", "set": 0, "it": 0, "via": "cond", "net": 0},
+         {"op": "fb", "set": 0, "it": 1, "via": "cond", "net": 1},
+         {"op": "fb", "set": 1, "it": 1, "via": "direct", "net": 1},
+         {"op": "fb", "set": 1, "it": 2, "via": "direct", "net": 0},
+         {"op": "fb", "set": 0, "it": 2, "via": "cond", "net": 0}],
+        # model(points, function_set) on two models, then training calls
+        [{"op": "fwd", "set": 0, "net": 0}, {"op": "fwd", "set": 0, "net": 1},
+         {"op": "fwd", "set": 0, "net": 0}, {"op": "fb", "set": 0, "it": 0, "via": "direct", "net": 1},
+         {"op": "tensor", "set": 0, "net": 1}, {"op": "fb", "set": 0, "it": None, "via": "cond", "net": 0}],
+        # the user looks at the functions at his own points first / in between
+        [{"op": "eval", "set": 0, "pts": "same-count"}, {"op": "fb", "set": 0, "it": 0, "via": "cond", "net": 0},
+         {"op": "eval", "set": 1, "pts": "other-count"}, {"op": "fwd", "set": 1, "net": 0},
+         {"op": "eval", "set": 1, "pts": "same-count"}, {"op": "fb", "set": 1, "it": 1, "via": "direct", "net": 0},
+         {"op": "eval", "set": 1, "pts": "disc"}],
+        [{"op": "fb", "set": 1, "it": None, "via": "direct", "net": 0},
+         {"op": "eval", "set": 1, "pts": "disc-net2"}, {"op": "eval", "set": 0, "pts": "disc-net2"},
+         {"op": "fix", "net": 0}, {"op": "fb", "set": 0, "it": 3, "via": "cond", "net": 0},
+         {"op": "fb", "set": 1, "it": 3, "via": "cond", "net": 0},
+         {"op": "fwd", "set": 1, "net": 1}],
+    ]
+    k = 0
+    for form in FORMS:
+        for h, ops in enumerate(reuse):
+            k += 1
+            two_d = k % 4 == 0
+            yield dict(base, form=form, branch=["fc", "conv"][k % 2], fdim=1 + k % 2,
+                       fin_dim=2 if two_d else 1, disc="data" if (two_d or k % 3 == 0) else "grid",
+                       n_par=1 + (k // 2) % 2, fn_kind=k % 3, out_dim=1 + k % 3, per=3, n_fn=2 + k % 3,
+                       n_disc=3 + k % 4, rng=(seed * 131 + 15485863 * k) % (2 ** 31 - 1),
+                       fb_lens=[0, 0 if k % 2 else 2], fb_ops=ops,
+                       fb_sum=[bool(k % 3 == 1), bool(k % 2)],
+                       net2_disc=NET2_DISC[k % 5], asym_track=True, asym_frozen=[])
 
 
 # ------------------------------------------------------------------------------------ building
@@ -495,94 +568,188 @@ def _loss(y, g, H, lw):
             + (y * lw[0]).sum() + (g * lw[1]).sum() + (H * lw[2]).sum())
 
 
-def _history(spec, ctx, cmp, net, ref, best, fn, f_space, in_space, disc_pts, x, poison, gen):
-    """Training-call history on ONE model: 2-3 function sets (own drawn parameters) are handed to
-    the model the way DeepONetSingleModuleCondition.forward does (_forward_branch(set, iteration)
-    followed by a forward without branch input; 'cond' = through a real PIDeepONetCondition),
-    interleaved with other ways of fixing the branch.  After every call the output must be the
-    contraction for the functions of the set that was named in THIS call.
+def _eval_function_set(ctx, cmp, fs, fn, kv, pts, f_in, f_out_dim, feat, what, sample):
+    """The user evaluates a function set at points of his own: FunctionSet.create_function_batch
+    is documented to return the functions at exactly these points, shape (len(set), len(points),
+    output dim).  Returns True when the comparison was made."""
+    with torch.no_grad():
+        want = fn(*[kv[:, k:k + 1].unsqueeze(1) for k in range(kv.shape[1])],
+                  pts.unsqueeze(0).expand(kv.shape[0], -1, -1)).clone()
+    with ctx.lib("FunctionSet.create_function_batch", feature=feat):
+        if sample:
+            fs.sample_params()
+        got = fs.create_function_batch(Points(pts.clone(), f_in))
+    if not isinstance(got, Points):
+        ctx.violation("shape", feat, f"{what}: create_function_batch returned {type(got).__name__}")
+        return False
+    return cmp.check("function-batch", feat, got.as_tensor.detach(), want,
+                     what + " vs the functions of the set at these points",
+                     shape=(kv.shape[0], pts.shape[0], f_out_dim))
+
+
+def _history(spec, ctx, cmp, net, ref, best, fn, f_space, in_space, disc_pts, x, poison, gen,
+             second_net, gen2):
+    """Training-call history on ONE model (and a second DeepONet sharing the function sets): 2-3
+    function sets (own drawn parameters) are handed to the model the way
+    DeepONetSingleModuleCondition.forward does (_forward_branch(set, iteration) followed by a
+    forward without branch input; 'cond' = through a real PIDeepONetCondition), interleaved with
+    other ways of fixing the branch, with uses of the same function-set objects by a second DeepONet
+    whose branch discretises at other points, and with the user evaluating a function set at points
+    of his own (create_function_batch).  After every call the output must be the contraction for
+    the functions of the set that was named in THIS call, discretised at the points of the branch
+    net of the model that was called.
 
     The history is interpreted against a model of the documented caching rule (a function set is
     re-sampled and re-discretised once per iteration number).  Calls for which the clean library is
     known to leave another set's branch features in the model (set.current_iteration_num ==
-    iteration although the model was handed something else in between; finding D-C14-1 of C14)
-    are left out of the history."""
+    iteration although this model was handed something else in between / never this set; finding
+    D-C14-1 of C14) are left out of the history."""
     ops = spec.get("fb_ops") or []
     if not ops:
         return []
     form, B, n_par = spec["form"], spec["n_fn"], spec["n_par"]
     feat = "forward-branch-history"
+    f_in = Space({"s": spec["fin_dim"]})
     lens = [B if (form == "perfn" or not L) else int(L) for L in (spec.get("fb_lens") or [0, 0])]
+    sums = list(spec.get("fb_sum") or [])
+    # the models: [0] the model of the case, [1] built on first use
+    models = [{"net": net, "ref": ref, "pts": disc_pts, "holder": None}]
+
+    def model(m):
+        if m and len(models) == 1:
+            net2, ref2, pts2 = second_net()
+            models.append({"net": net2, "ref": ref2, "pts": pts2, "holder": None})
+        return models[1 if m else 0]
+
+    def par_sampler(kv):
+        return DataSampler({n: kv[:, k:k + 1].clone() for k, n in enumerate(["a", "b"][:n_par])})
+
     sets = []
-    for L in lens:
+    for j, L in enumerate(lens):
         kv = torch.randn((L, n_par), generator=gen, dtype=torch.float64)
-        with torch.no_grad():
-            disc = fn(*[kv[:, k:k + 1].unsqueeze(1) for k in range(n_par)],
-                      disc_pts.unsqueeze(0).expand(L, -1, -1)).clone()
-            want = ref.outputs(x, disc)[best]
+        summed = bool(L >= 2 and j < len(sums) and sums[j])
         with ctx.lib("construct function set", feature=feat):
-            fs = CustomFunctionSet(
-                f_space, DataSampler({n: kv[:, k:k + 1].clone() for k, n in enumerate(["a", "b"][:n_par])}),
-                fn)
-        sets.append({"fs": fs, "disc": disc, "want": want, "cur": -1, "cond": None, "len": L,
-                     "seen": {}})
-    labels, holder, prev_fb = set(), None, None
+            if summed:      # documented: the batch of a sum = the batches of the operands
+                h = L // 2
+                fs = CustomFunctionSet(f_space, par_sampler(kv[:h]), fn) \
+                    + CustomFunctionSet(f_space, par_sampler(kv[h:]), fn)
+            else:
+                fs = CustomFunctionSet(f_space, par_sampler(kv), fn)
+        sets.append({"fs": fs, "kv": kv, "disc": {}, "want": {}, "cur": -1, "cond": {}, "len": L,
+                     "seen": {}, "sampled": False, "summed": summed, "last_pts": None})
+
+    def expected(S, m):
+        """(functions of the set at the branch points of model m, contraction for them)"""
+        if m not in S["want"]:
+            M = model(m)
+            with torch.no_grad():
+                S["disc"][m] = fn(*[S["kv"][:, k:k + 1].unsqueeze(1) for k in range(n_par)],
+                                  M["pts"].unsqueeze(0).expand(S["len"], -1, -1)).clone()
+                S["want"][m] = M["ref"].outputs(x, S["disc"][m])[best]
+        return S["disc"][m], S["want"][m]
+
+    def evaluates_at(S, pts):
+        """bookkeeping for the class histogram: the function-set OBJECT is evaluated at pts"""
+        last = S["last_pts"]
+        if last is not None and not (last.shape == pts.shape and torch.equal(last, pts)):
+            labels.add("history-set-reused-at-other-points"
+                       + ("-same-count" if last.shape == pts.shape else ""))
+        S["last_pts"] = pts
+
+    labels, prev_fb = set(), None
     for k, op in enumerate(ops):
+        m = 1 if int(op.get("net") or 0) else 0
         if op["op"] == "fix":
+            M = model(m)
             with ctx.lib("fix_branch_input", feature=feat):
-                net.fix_branch_input(poison.clone())
-            holder = None
+                n_in = M["pts"].shape[0]
+                M["net"].fix_branch_input(poison.clone() if n_in == poison.shape[1] else
+                                          poison[:, :1].expand(-1, n_in, -1).clone())
+            M["holder"] = None
             continue
         s = int(op["set"]) % len(sets)
         S = sets[s]
+        if op["op"] == "eval":
+            kind_p = op.get("pts") or "same-count"
+            n_d = disc_pts.shape[0]
+            if kind_p == "disc":
+                pts = disc_pts.clone()
+            elif kind_p == "disc-net2":
+                pts = model(1)["pts"].clone()
+            else:
+                n_p = n_d if kind_p == "same-count" else (n_d + 1 if k % 2 else max(1, n_d - 1))
+                pts = torch.rand((n_p, spec["fin_dim"]), generator=gen2, dtype=torch.float64)
+            if _eval_function_set(ctx, cmp, S["fs"], fn, S["kv"], pts, f_in, spec["fdim"], feat,
+                                  f"op {k}: function set {s} evaluated at {pts.shape[0]} points of "
+                                  f"the user ({kind_p})", sample=not S["sampled"]):
+                labels.add("history-set-evaluated-by-user")
+            S["sampled"] = True
+            evaluates_at(S, pts)
+            continue
+        M = model(m)
+        S_disc, S_want = expected(S, m)
         if op["op"] == "tensor":
             with ctx.lib("forward/history tensor", feature=feat):
                 _, p = _trunk_points(spec, x, in_space, S["len"])
-                out = net(p, S["disc"].clone())
-            holder = None
-            kind, what = "supply-mismatch", f"op {k}: functions of set {s} as tensor"
+                out = M["net"](p, S_disc.clone())
+            M["holder"] = None
+            kind, what = "supply-mismatch", f"op {k}: functions of set {s} as tensor (net {m})"
+        elif op["op"] == "fwd":
+            with ctx.lib("forward/history function set", feature=feat):
+                _, p = _trunk_points(spec, x, in_space, S["len"])
+                out = M["net"](p, S["fs"])
+            M["holder"], S["sampled"] = s, True
+            evaluates_at(S, M["pts"])
+            kind, what = "supply-mismatch", f"op {k}: model(points, function set {s}) (net {m})"
         else:
             it = op["it"]
             cached = it == S["cur"]
-            if cached and holder != s:
+            if cached and M["holder"] != s:
                 labels.add("history-dropped-known-stale")
                 continue
             via = op["via"] if form == "repeat" else "direct"
             if via == "cond":
-                if S["cond"] is None:
+                if m not in S["cond"]:
                     def residual(u, _seen=S["seen"]):
                         _seen["u"] = u
                         return u
                     with ctx.lib("construct PIDeepONetCondition", feature=feat):
-                        S["cond"] = PIDeepONetCondition(net, S["fs"],
-                                                        DataSampler(Points(x.clone(), in_space)),
-                                                        residual, name=f"set{s}")
+                        S["cond"][m] = PIDeepONetCondition(M["net"], S["fs"],
+                                                           DataSampler(Points(x.clone(), in_space)),
+                                                           residual, name=f"set{s}net{m}")
                 S["seen"].clear()
                 with ctx.lib("PIDeepONetCondition.forward", feature=feat):
-                    S["cond"](iteration=it)
+                    S["cond"][m](iteration=it)
                 out = S["seen"].get("u")
             else:
                 with ctx.lib("_forward_branch + forward", feature=feat):
-                    net._forward_branch(S["fs"], iteration_num=it)
+                    M["net"]._forward_branch(S["fs"], iteration_num=it)
                     _, p = _trunk_points(spec, x, in_space, S["len"])
-                    out = net(p)
-            if prev_fb is not None and prev_fb[0] != s and prev_fb[1] == it:
+                    out = M["net"](p)
+            if prev_fb is not None and prev_fb[0] != s and prev_fb[1] == it and prev_fb[2] == m:
                 labels.add("history-two-sets-one-iteration"
                            + ("-equal-length" if sets[prev_fb[0]]["len"] == S["len"] else ""))
             if cached:
                 labels.add("history-cached-call")
-            S["cur"], holder, prev_fb = it, s, (s, it)
+            else:
+                evaluates_at(S, M["pts"])
+            S["cur"], M["holder"], prev_fb, S["sampled"] = it, s, (s, it, m), True
             kind = "stale-branch"
             what = (f"op {k}: function set {s} (length {S['len']}) at iteration {it} via {via}"
-                    f"{' (cached)' if cached else ''}")
+                    f"{' (cached)' if cached else ''} (net {m})")
         if isinstance(out, Points):
             out = out.as_tensor
         if not isinstance(out, torch.Tensor):
             ctx.violation("shape", feat, f"{what}: model output is {type(out).__name__}")
             continue
-        cmp.check(kind, feat, out.detach(), S["want"],
+        cmp.check(kind, feat, out.detach(), S_want,
                   what + " vs sum_m branch[i,c,m]*trunk[j,c,m] for the functions of that set")
         labels.add("history-checked")
+        if op["op"] != "tensor":
+            if S["summed"]:
+                labels.add("history-summed-set")
+            if m:
+                labels.add("history-second-net")
     return sorted(labels)
 
 
@@ -598,6 +765,9 @@ def run_case(spec, ctx):
 
 def _run(spec, ctx):
     gen = torch.Generator().manual_seed(int(spec["rng"]))
+    # second, independent stream for the function-set re-use configurations (keeps the values of
+    # all other draws of a spec unchanged)
+    gen2 = torch.Generator().manual_seed((int(spec["rng"]) * 48271 + 11) % (2 ** 31 - 1))
     form, dim = spec["form"], spec["out_dim"]
     B, N = spec["n_fn"], spec["n_loc"]
     d_in = sum(d for _, d in spec["in_vars"])
@@ -709,6 +879,25 @@ def _run(spec, ctx):
         with ctx.lib("fix_branch_input", feature=feat):
             net.fix_branch_input(poison.clone())
 
+    # a function-set OBJECT that has been used before: evaluated by the user at points of his own
+    # (as many as the branch discretisation has / one more), or discretised by another branch net
+    f_in = Space({"s": spec["fin_dim"]})
+
+    def reused_set(how):
+        def make():
+            fs = fset(allr)
+            n_p = spec["n_disc"] + (how == "other-count")
+            pts = torch.rand((n_p, spec["fin_dim"]), generator=gen2, dtype=torch.float64)
+            _eval_function_set(ctx, cmp, fs, fn, kv, pts, f_in, spec["fdim"],
+                               "functionset-reused-" + how,
+                               f"fresh function set evaluated at {n_p} points of the user", sample=True)
+            return fs
+        return make
+
+    variants.append(("functionset-reused-same-count", reused_set("same-count"), None))
+    if spec["rng"] % 3 == 0:
+        variants.append(("functionset-reused-other-count", reused_set("other-count"), None))
+
     for name, make, fix in variants:
         forget()
         with ctx.lib("build branch input " + name, feature=name):
@@ -752,8 +941,24 @@ def _run(spec, ctx):
 
     # ---- (a) training-call histories: several function sets on the one model ----------------
     if errs[best][2]:       # (a wrong contraction would only be reported a second time)
+        def second_net():
+            """A second DeepONet of the same architecture (own weights) whose branch discretises
+            the functions at other points; it is handed the SAME function-set objects."""
+            how = spec.get("net2_disc") or "same-count"
+            if how == "shared-sampler":
+                sampler2 = disc_sampler
+            else:
+                n2 = spec["n_disc"] + (how == "other-count")
+                sampler2 = DataSampler({"s": torch.rand((n2, spec["fin_dim"]), generator=gen2,
+                                                       dtype=torch.float64)})
+            with ctx.lib("construct second DeepONet", feature="deeponet"):
+                net2, trunk2, has_norm2 = _build(spec, copied, sampler2, f_space, in_space, out_space)
+                pts2 = sampler2.sample_points().as_tensor
+            _randomise(net2, gen2)
+            return net2, _Reference(spec, net2, trunk2, has_norm2), pts2
+
         classes += _history(spec, ctx, cmp, net, ref, best, fn, f_space, in_space, disc_pts, x,
-                            poison, gen)
+                            poison, gen, second_net, gen2)
 
     # ---- (b) differential: fast path vs plain network, derivatives, parameter gradients ----
     w0 = 0.5 + rnd(*((B, N, dim)))
